@@ -193,7 +193,9 @@ pub fn str_slice(
             if let Some(ch) = chars.get(idx) {
                 out.push(*ch);
             }
-            i += step;
+            // `i + step` can exceed i64 for huge steps; past the end either way.
+            let Some(next) = i.checked_add(step) else { break };
+            i = next;
         }
     } else {
         while i > end_idx {
@@ -201,7 +203,8 @@ pub fn str_slice(
             if let Some(ch) = chars.get(idx) {
                 out.push(*ch);
             }
-            i += step; // negative
+            let Some(next) = i.checked_add(step) else { break }; // negative
+            i = next;
         }
     }
 
